@@ -151,4 +151,112 @@ theorem next_raised_documented (view : α → View α) (steps : Array (Step α))
     | bug m => simp at h
     | stop => simp at h
 
+/-- a supported step whose predicate (if it is a filter) returns a value never aborts -/
+theorem vmatch_no_abort {α : Type} (view : α → View α) (st : St α) (p : Nat) (tm : TM α) (vi : Nat) (s : Step α)
+    (hs : s.supported = true) (hval : ∀ f, s = .filter f → ∃ j, (f tm.node).res = .val j)
+    (st' : St α) (sig : Sig α) (evs : List (Ev α)) (h : vmatch view st p tm vi s = .abort st' sig evs) : False := by
+  cases s with
+  | filter f =>
+    obtain ⟨j, hj⟩ := hval f rfl
+    simp only [vmatch, vmatchFilter, hj] at h
+    split at h <;> simp at h
+  | recur =>
+    obtain ⟨e, he, hd⟩ := vmatch_abort_documented view st p tm vi _ hs st' sig evs h
+    simp only [vmatch, vmatchRecur] at h
+    split at h
+    · split at h <;> simp at h
+    · simp at h
+    · split at h <;> simp at h
+  | key k => simp only [vmatch, vmatchSingle] at h; split at h <;> simp at h
+  | idx i => simp only [vmatch, vmatchSingle] at h; split at h <;> simp at h
+  | parent => simp only [vmatch, vmatchSingle] at h; split at h <;> simp at h
+  | slice a b c =>
+    obtain ⟨e, he, hd⟩ := vmatch_abort_documented view st p tm vi _ hs st' sig evs h
+    obtain ⟨_, x, hx⟩ := vmatch_abort view st p tm vi _ st' sig evs h
+    simp only [vmatch, vmatchMulti] at h
+    split at h
+    · obtain ⟨a1, b1, c1, hk⟩ := iterStep_ok st p tm vi ‹_›
+      rw [hk] at h; simp at h
+    · split at h
+      · simp at h
+      · rename_i hio
+        have := itemsOf_valueError _ _ (by rw [hio]); rw [hs] at this; simp at this
+      · obtain ⟨a1, b1, c1, hk⟩ := iterStep_ok (remember st p ‹_›) p (parked tm p ‹_›) vi ‹_›
+        rw [hk] at h; simp at h
+  | tuple ns =>
+    simp only [vmatch, vmatchMulti] at h
+    split at h
+    · obtain ⟨a1, b1, c1, hk⟩ := iterStep_ok st p tm vi ‹_›
+      rw [hk] at h; simp at h
+    · split at h
+      · simp at h
+      · rename_i hio
+        have := itemsOf_valueError _ _ (by rw [hio]); rw [hs] at this; simp at this
+      · obtain ⟨a1, b1, c1, hk⟩ := iterStep_ok (remember st p ‹_›) p (parked tm p ‹_›) vi ‹_›
+        rw [hk] at h; simp at h
+  | keyWc =>
+    simp only [vmatch, vmatchMulti] at h
+    split at h
+    · obtain ⟨a1, b1, c1, hk⟩ := iterStep_ok st p tm vi ‹_›
+      rw [hk] at h; simp at h
+    · split at h
+      · simp at h
+      · rename_i hio
+        have := itemsOf_valueError _ _ (by rw [hio]); rw [hs] at this; simp at this
+      · obtain ⟨a1, b1, c1, hk⟩ := iterStep_ok (remember st p ‹_›) p (parked tm p ‹_›) vi ‹_›
+        rw [hk] at h; simp at h
+  | idxWc =>
+    simp only [vmatch, vmatchMulti] at h
+    split at h
+    · obtain ⟨a1, b1, c1, hk⟩ := iterStep_ok st p tm vi ‹_›
+      rw [hk] at h; simp at h
+    · split at h
+      · simp at h
+      · rename_i hio
+        have := itemsOf_valueError _ _ (by rw [hio]); rw [hs] at this; simp at this
+      · obtain ⟨a1, b1, c1, hk⟩ := iterStep_ok (remember st p ‹_›) p (parked tm p ‹_›) vi ‹_›
+        rw [hk] at h; simp at h
+  | gwc =>
+    simp only [vmatch, vmatchMulti] at h
+    split at h
+    · obtain ⟨a1, b1, c1, hk⟩ := iterStep_ok st p tm vi ‹_›
+      rw [hk] at h; simp at h
+    · split at h
+      · simp at h
+      · rename_i hio
+        have := itemsOf_valueError _ _ (by rw [hio]); rw [hs] at this; simp at this
+      · obtain ⟨a1, b1, c1, hk⟩ := iterStep_ok (remember st p ‹_›) p (parked tm p ‹_›) vi ‹_›
+        rw [hk] at h; simp at h
+
+/-- hence an action over a quiet path never raises -/
+theorem action_no_raise_quiet {α : Type} (view : α → View α) (steps : Array (Step α)) (src : Src α)
+    (hq : ∀ s ∈ steps.toList, s.supported = true ∧ ∀ f, s = .filter f → ∀ n, ∃ j, (f n).res = .val j)
+    (st s1 : St α) (e1 : List (Ev α)) (e : Exc) (h : action view steps src st = (s1, e1, .raised e)) : False := by
+  unfold action at h
+  split at h
+  · simp [initAction] at h
+  · simp at h
+  · split at h
+    · simp only [reportAction] at h; split at h <;> simp at h
+    · simp at h
+  · split at h
+    · simp [catchAction] at h
+    · simp at h
+  · split at h
+    · rename_i c tm _
+      simp only [matchAction] at h
+      split at h
+      · simp at h
+      · rename_i s hget
+        have hmem : s ∈ steps.toList := by
+          obtain ⟨hi, hv⟩ := Array.getElem?_eq_some_iff.mp hget
+          rw [← hv]; simp
+        obtain ⟨hsup, hval⟩ := hq s hmem
+        split at h
+        · rename_i hv
+          exact vmatch_no_abort view st c tm _ s hsup (fun f hf => hval f hf tm.node) _ _ _ hv
+        · simp at h
+        · split at h <;> simp at h
+    · simp at h
+
 end Treepath
